@@ -140,6 +140,9 @@ func runC07(c *Ctx) {
 	c.ParallelFor(nRand, func(w *Worker, i int64) {
 		r := newRng(c.Seed, 0xc07, uint64(i))
 		n := maxLen + 1 + r.Intn(48-maxLen)
+		if r.Chance(1, 60) {
+			n = 200 + r.Intn(2000)
+		}
 		var sb strings.Builder
 		wf := r.Bool() // half of the samples are made well-formed by construction
 		open := false
